@@ -70,8 +70,13 @@ for sid in sorted(os.listdir(os.path.join(VERIF, "seeded"))):
                 hits[pid] = lines[:3]
             elif c.returncode == 2:
                 hits[pid + "(broken)"] = [l for l in c.stdout.splitlines() if "ANALYSIS-BROKEN" in l][:1]
-        res[sid] = {"applied": True, "how": how, "detected_by": hits}
-        print(sid, "DETECTED by %s" % sorted(hits) if hits else "MISSED", flush=True)
+        real = {k: v for k, v in hits.items() if not k.endswith("(broken)")}
+        if hits and not real and all("extraction failed" in " ".join(v) for v in hits.values()):
+            res[sid] = {"applied": False, "why": "the patch no longer compiles on the current tree (needs a patch.rebased.diff)"}
+            print(sid, "PATCH DOES NOT COMPILE on the current tree", flush=True)
+            continue
+        res[sid] = {"applied": True, "how": how, "detected_by": real, "analysis_broken_only": sorted(set(hits) - set(real)) if not real else []}
+        print(sid, ("DETECTED by %s" % sorted(real)) if real else ("NO VERDICT (exit 2 only: %s)" % sorted(hits) if hits else "MISSED"), flush=True)
         for k, v in hits.items():
             for l in v[:1]:
                 print("     ", k, l[:200])
